@@ -9,7 +9,9 @@ RULE = ("Hypothesis-generated operation histories on a real futures session stat
         "balance, position size/side, average entry, unrealised PnL and available margin are compared with the FuturesAccount "
         "reference fed from the observed submit/cancel/fill events; InsufficientMargin is required exactly when notional/"
         "leverage exceeds the reference's available margin (1e-9 relative band around equality accepts either); "
-        "submit-then-cancel must restore the available margin exactly (==). A rejected submission ends the history. "
+        "submit-then-cancel must restore the available margin exactly (==). A rejected submission ends the history. In addition "
+        "every generated futures session (session driver, both simulators, cross and isolated, incl. liquidations, flips and "
+        "forced closes) is replayed into the same reference account from its trace and compared at every strategy hook. "
         "distinct = digest of config + op list; non-trivial = the history contains a reduction or close after an increase, a "
         "flip, a cancellation of a resting order, or a rejection.")
 ASSUMPTIONS = [
@@ -44,6 +46,7 @@ def run_history(cfg, ops):
     live = []
     increased = set()
     last_fill_tag = ['']
+    tainted = [False]
     exact = [True]  # all order quantities so far have at most 10 significant decimal digits
 
     def feed():
@@ -72,6 +75,10 @@ def run_history(cfg, ops):
                         flags.add('reduce-or-close-after-increase')
                     if eff == 'flip':
                         flags.add('flip')
+                        if any(o[0] == sym and o[4] for o in model.resting.values()):
+                            # jesse does not cancel the resting exits on a flip (C06 known finding); the property quantifies over
+                            # histories in which everything resting is cancelled when a position closes: stop judging this history
+                            tainted[0] = True
                     if oversize_ro:
                         flags.add('oversize-reduce-only')
                     if eff in ('close', 'flip'):
@@ -192,6 +199,9 @@ def run_history(cfg, ops):
             else:
                 raise ValueError(kind)
             feed()
+            if tainted[0]:
+                flags.add('stopped:reduce-only-order-survived-a-flip')
+                break
             compare(what)
             if vios:
                 break
@@ -203,7 +213,53 @@ def run_history(cfg, ops):
     return vios, flags, applied
 
 
+def session_replay(spec):
+    """Every futures session of the session driver replayed into the reference account from its trace (fills and resting
+    orders in trace order) and compared at every strategy hook."""
+    from vf.drive import session
+    from vf.ref.accounts import FuturesAccount, fr
+    r = session.run(spec, obs='light')
+    cfg = spec['cfg']
+    sim = 'fast' if spec.get('fast') else 'step'
+    model = FuturesAccount(cfg['balance'], cfg['fee'], cfg['leverage'])
+    vios, flags = [], set()
+    for e in r['trace']:
+        if e['ev'] == 'submit':
+            model.submit(e['ord'], e['sym'], e['side'], e['qty'], e['price'], e['reduce_only'])
+        elif e['ev'] == 'cancel' and e['before'] == 'ACTIVE' and e['ord'] in model.resting:
+            model.cancel(e['ord'])
+        elif e['ev'] == 'execute' and e['before'] == 'ACTIVE' and e['ord'] in model.resting:
+            sym_ = model.resting[e['ord']][0]
+            model.fill(e['ord'])
+            flags.add('fill:' + str(model.last_effect))
+            if e['phase'] == 'liquidation':
+                flags.add('liquidation-fill')
+            if model.last_effect == 'flip' and any(o[0] == sym_ and o[4] for o in model.resting.values()):
+                flags.add('stopped:reduce-only-order-survived-a-flip')
+                break
+        elif e['ev'] == 'hook' and 'accounts' in e:
+            acc_ = e['accounts']
+            for sym, p in acc_['positions'].items():
+                if p['cur'] is not None:
+                    model.price[sym] = fr(p['cur'])
+            where = f"hook {e['name']} idx={e['idx']} phase={e['phase']}"
+            if not close_enough(fr(acc_['assets']['USDT']), model.wallet):
+                vios.append((f'C03:session:sim={sim}:wallet-balance', f"{where}: wallet {acc_['assets']['USDT']!r} vs reference {float(model.wallet)!r}"))
+            for sym, p in acc_['positions'].items():
+                if not close_enough(fr(p['qty']), model.q(sym)):
+                    vios.append((f'C03:session:sim={sim}:position-size', f"{where}: {sym} qty {p['qty']!r} vs reference {float(model.q(sym))!r}"))
+                elif model.q(sym) != 0 and (p['entry'] is None or not close_enough(fr(p['entry']), model.entry[sym])):
+                    vios.append((f'C03:session:sim={sim}:average-entry', f"{where}: {sym} entry {p['entry']!r} vs reference {float(model.entry[sym])!r}"))
+            if not vios and e['sym'] in acc_['positions'] and not close_enough(fr(e['margin']), model.available_margin()):
+                vios.append((f'C03:session:sim={sim}:available-margin', f"{where}: available margin {e['margin']!r} vs reference {float(model.available_margin())!r}"))
+            if vios:
+                break
+    return vios, flags, r
+
+
 def replay(case):
+    if case.get('kind') == 'session':
+        return session_replay(case['spec'])[0]
     return run_history(case['cfg'], [tuple(o) for o in case['ops']])[0]
 
 
@@ -228,5 +284,19 @@ def run_shard(acc, shard, nshards, seed, tier):
         nt = bool(flags & {'reduce-or-close-after-increase', 'flip', 'cancel-of-resting-order', 'rejection'})
         d = dict(cfg=cfg, ops=applied)
         return dict(key=d, nontrivial=nt, classes=sorted(flags), sample=d if len(applied) < 9 else None, violations=vios)
-    runner.hyp_search(acc, strat, chk, 400 if tier == 'quick' else 8000, seed, tier, known=known,
+    runner.hyp_search(acc, strat, lambda c: dict(chk(c), sub='bench-histories'), 400 if tier == 'quick' else 8000, seed, tier, known=known,
                       describe=lambda c: dict(cfg=c[0], ops=[list(o) for o in c[1]]))
+
+    from vf.gen import sessions
+    sess = sessions.session(minutes=(60, 180) if tier == 'quick' else (60, 400), kinds=('futures',), modes=('cross', 'cross', 'isolated'), max_data=0, warmup=(False,),
+                            align_len=True, leverages=(1, 2, 5, 10, 25, 100), program=dict(busy=True, oversize=True, flips=True))
+
+    def chk_s(spec):
+        vios, flags, r = session_replay(spec)
+        nt = bool(flags & {'fill:reduce', 'fill:close', 'fill:flip'})
+        return dict(key=('s', spec['cfg'], spec['routes'], spec['scripts'], spec['candles'], spec['fast']), nontrivial=nt,
+                    classes=['session:' + f for f in sorted(flags)] + ['session:' + ('fast' if spec['fast'] else 'step'), 'session:' + spec['cfg']['mode']],
+                    violations=vios, sub='session-replay',
+                    sample=dict(cfg=spec['cfg'], routes=spec['routes'], fast=spec['fast'], minutes=spec['n'], orders=len(r['orders'])) if nt else None)
+    runner.hyp_search(acc, sess, chk_s, 12 if tier == 'quick' else 800, seed + 11, tier, known=known, shrink_calls=15, max_shrink_sigs=1,
+                      describe=lambda spec: dict(kind='session', spec=spec))
